@@ -107,6 +107,26 @@ pub fn insert_u64(byteorder: ByteOrder, val: u64, buf: &mut [u8]) {
     }
 }
 
+/// Arrays and dicts can only be as long as the protocol allows. Call this before using the length read from a message.
+#[inline]
+pub fn check_array_len(len: u32) -> UnmarshalResult<usize> {
+    if len as usize > crate::wire::MAX_ARRAY_LEN {
+        Err(UnmarshalError::ArrayTooLong)
+    } else {
+        Ok(len as usize)
+    }
+}
+
+/// Arrays and dicts can only be as long as the protocol allows. Call this before writing the length into a message.
+#[inline]
+pub fn check_marshalled_array_len(len: usize) -> Result<u32, MarshalError> {
+    if len > crate::wire::MAX_ARRAY_LEN {
+        Err(MarshalError::ArrayTooLong)
+    } else {
+        Ok(len as u32)
+    }
+}
+
 pub fn write_string(val: &str, byteorder: ByteOrder, buf: &mut Vec<u8>) {
     let len = val.len() as u32;
     write_u32(len, byteorder, buf);
